@@ -5,9 +5,10 @@
     internal) is the base-2 conversion of the same value (the debug assertion of
     into_f32/f64_internal never fires), hence the correctly rounded IEEE value with the truthful
     flag in the normal range; for a non-negative exponent the value is an integer, so there is no
-    range condition at all.  The remaining route (negative exponent, base not a power of two:
-    repr_div) is the open class fbig_to_float_division_route; |exponent| > 38 is C08's logarithm
-    route. *)
+    range condition at all.  The division route (negative exponent, base not a power of two) was
+    repaired in the fourth round and is proved in Conv/ConvDivRoute.v; |exponent| > 38 (C08's
+    logarithm route) is Conv/ConvLargeRoute.v.  [fbig2_to_float_old] is the round-to-MB+1-bits-then-
+    encode conversion every base other than 2 still ends in. *)
 From Dashu Require Import Base.Prelude Float.RoundSpec Float.RoundSpecProof Float.Contract Float.Model
   Float.ModelProof Float.RoundOpsLegal Conv.ConvSpec Conv.ConvModel Conv.ConvArith Conv.ConvIeee
   Conv.ConvEncodeProofs Conv.ConvFloatProofs.
